@@ -1,6 +1,6 @@
 (* C16 — property theorems only: statement, `exact <lemma>`, Print Assumptions. *)
 From GL Require Import Common.Bytes Text.Quote Text.StrLit Text.NumRead Text.NumText Text.Date
-  Text.QuoteFacts Text.StrLitFacts Text.NumFacts Text.NumLexFacts Text.NumTextFacts Text.DateFacts Text.RoundFacts Text.CalFacts Text.Legacy Text.LegacyFacts Text.NumTokFacts.
+  Text.QuoteFacts Text.StrLitFacts Text.NumFacts Text.NumLexFacts Text.NumTextFacts Text.DateFacts Text.RoundFacts Text.CalFacts Text.Legacy Text.LegacyFacts Text.NumTokFacts Text.Reader Text.ReaderFacts.
 
 (* ---- %q ---- *)
 (* what string.format('%q', s) must produce reads back through the lexer as s, for every byte string *)
@@ -139,6 +139,25 @@ Theorem legacy_lexer_refuted :
   legacy_lex_digits [48;48;57;57] = None.
 Proof. exact legacy_lexer_refuted_lemma. Qed.
 Print Assumptions legacy_lexer_refuted.
+
+(* ---- the reader under the literals ---- *)
+(* Scanner.Next (with Newline's look-ahead for the partner of a two-byte line end) over the buffered
+   reader returns the same character and leaves the same bytes unread as the flat reader `next` that
+   the literal theorems above are stated with - whatever is buffered and however the rest will be
+   delivered (a pair split between two fills, one byte per Read, empty Reads in between) *)
+Theorem reader_next_flat : forall r, next (flat r) = (fst (next_rd r), flat (snd (next_rd r))).
+Proof. exact next_rd_flat_lemma. Qed.
+Print Assumptions reader_next_flat.
+
+Theorem reader_peek_flat : forall r, fst (peek_rd r) = peek (flat r) /\ flat (snd (peek_rd r)) = flat r.
+Proof. exact peek_rd_flat. Qed.
+Print Assumptions reader_peek_flat.
+
+(* so two deliveries of the same bytes are read as the same characters, to any length *)
+Theorem reader_delivery_independent : forall segs1 segs2, concat segs1 = concat segs2 ->
+  forall n, chars_rd n (mkRd [] segs1) = chars_rd n (mkRd [] segs2).
+Proof. exact delivery_independent_lemma. Qed.
+Print Assumptions reader_delivery_independent.
 
 (* ---- dates ---- *)
 (* in a zone where time.Date inverts the broken-down time, os.time(os.date('*t', t)) = t *)
